@@ -47,4 +47,14 @@ CHECKS = {
           "NUFFT Toeplitz normal is only validated to interpolation accuracy (partial).",
   "technique": "Coq proof over the deep embedding + exact A.N object-graph correspondence",
  },
+ "C07": {
+  "text": "Coq theorems about the loop nests GENERATED from interp.py on every run: the 1-D interpolate kernel equals the sum over the integers in "
+          "[ceil(k-W/2), floor(k+W/2)] of K((x-k)/(W/2),p)*in[b, x mod n]; those bounds are exactly the samples within half a width (ties included) for "
+          "any ordering with Galois ceil/floor; gridding accumulates the same weights onto the wrapped position (duplicates add); the two are exact "
+          "transposes; the generated _spline_kernel is the documented B-spline of order 0-2. Wrappers (batching, width/param broadcasting) and the 2-D/3-D "
+          "kernels are tied to an N-D closed form and to the implementation by PrimFloat correspondence.",
+  "note": "Trusted: Coq kernel+vm_compute(PrimFloat); translate_loops.py and LoopIR.exec; wrapper model Interp.v; Kaiser-Bessel kernel values measured on the "
+          "implementation (I0 polynomial outside the model; compared with numpy.i0 to 3e-6). 2-D/3-D kernels: correspondence only. No axioms.",
+  "technique": "Coq proof over loop-nest IR generated from the source + PrimFloat model/implementation correspondence",
+ },
 }
